@@ -165,6 +165,22 @@ Theorem kube_view_exact : forall l, kwf_run [] l ->
 Proof. exact kube_exact. Qed.
 Print Assumptions kube_view_exact.
 
+(* With the source as it stands (OnAdd replaces, GenProofs.kubeOnAddReplaces_today) the
+   condition on OnAdd disappears: whatever object the informer adds - also one that lost
+   addresses since kubeBuilder.Build's Get+Update - the published list is exactly its IPs. *)
+Theorem kube_view_exact_any_add : forall l, kwf_free_run [] l ->
+  let s := krun kinit l in
+  NoDup (klast s) /\
+  (forall ip, In ip (klast s) <-> In ip (ktruth l)) /\
+  (forall ip, In ip (kend s) <-> In ip (ktruth l)).
+Proof. exact kube_exact_free. Qed.
+Print Assumptions kube_view_exact_any_add.
+
+Example ex_kube_shrunk_add :
+  kwf_free_run [] [KUpdate (mkObj 1 [[1; 2]]); KAdd (mkObj 2 [[1]])] /\
+  klast (krun kinit [KUpdate (mkObj 1 [[1; 2]]); KAdd (mkObj 2 [[1]])]) = [1].
+Proof. vm_compute. tauto. Qed.
+
 (* ... and for ANY history: a handler call either leaves the endpoint set as it was and
    publishes nothing, or publishes exactly once, the new set. *)
 Theorem kube_change_publishes_once : forall l e,
